@@ -248,53 +248,97 @@ func runC18(r *mc.Run) {
 		r.SetBudget(170 * 1e9)
 	}
 	r.Bounds["depth_blocks"] = depth
-	r.Rule = "tree search over block histories of the real application producing pending / active / zero-power / jailed-path / tombstoned / exiting validators, pending and boarding voters, in-flight and cancelling withdrawals, non-empty queues, pending unlocks, voted hashes, credited deposits and bridge-parameter corners; in every visited state: ExportAppStateAndValidators -> InitChain on a fresh App must succeed, return the exported active set, re-export identically (per module), reproduce every module store (boarding queue as a multiset), satisfy the ranking / set / group invariants, and produce a block"
+	r.Rule = "tree search over block histories of the real application producing pending / active / zero-power / jailed-path / tombstoned / exiting validators, pending and boarding voters (also several membership changes of a group of four queued between two elections), in-flight and cancelling withdrawals, non-empty queues, pending unlocks, voted hashes, credited deposits and bridge-parameter corners; in every visited state: ExportAppStateAndValidators -> InitChain on a fresh App must succeed, return the exported active set, re-export identically (per module), reproduce every module store (boarding queue as a multiset), satisfy the ranking / set / group invariants, and produce a block"
 	r.Assumptions = []string{"the re-export reads the imported state through the finalize-state context right after InitChain (no block in between)"}
-	root, err := enga.NewWorld(c18Cfg())
-	if err != nil {
-		panic(err)
-	}
-	defer root.Close()
-	menu := c18Menu(r.Thorough())
-	check := func(w *enga.World, path []enga.ABlock) {
-		for _, b := range c18RoundTrip(w) {
-			cls := b
-			if i := strings.Index(b, ":"); i > 0 {
-				cls = b[:i]
-				// keep the module / store prefix in the class so that distinct defects stay distinct
-				rest := b[i+1:]
-				if j := strings.Index(rest, ":"); j > 0 && j < 40 {
-					cls += ":" + rest[:j]
-				} else if strings.HasPrefix(cls, "import-") {
-					cls += ":" + strings.TrimSpace(rest)
-					if len(cls) > 110 {
-						cls = cls[:110]
+	for _, rt := range c18Roots(r.Thorough()) {
+		rt := rt
+		var explore func(r *mc.Run, only []enga.ABlock)
+		explore = func(r *mc.Run, only []enga.ABlock) {
+			root, err := enga.NewWorld(rt.Cfg())
+			if err != nil {
+				panic(err)
+			}
+			defer root.Close()
+			menu := rt.Menu
+			check := func(w *enga.World, path []enga.ABlock) {
+				for _, b := range c18RoundTrip(w) {
+					cls := b
+					if i := strings.Index(b, ":"); i > 0 {
+						cls = b[:i]
+						// keep the module / store prefix in the class so that distinct defects stay distinct
+						rest := b[i+1:]
+						if j := strings.Index(rest, ":"); j > 0 && j < 40 {
+							cls += ":" + rest[:j]
+						} else if strings.HasPrefix(cls, "import-") {
+							cls += ":" + strings.TrimSpace(rest)
+							if len(cls) > 110 {
+								cls = cls[:110]
+							}
+						}
 					}
+					r.Violate(mc.Violation{Class: cls, Msg: b + fmt.Sprintf(" | %s history %v", rt.Name, aPath(path)), Detail: engaDetail{Path: path, Note: rt.Name}}, nil)
 				}
+				r.Transitions.Add(1)
+				r.Outcome("round-trip")
 			}
-			r.Violate(mc.Violation{Class: cls, Msg: b + fmt.Sprintf(" | history %v", aPath(path)), Detail: engaDetail{Path: path}}, nil)
+			check(root, nil)
+			t := &enga.Tree{Run: r, Depth: depth,
+				Menu: func(w *enga.World, path []enga.ABlock) []enga.ABlock { return menu },
+				Visit: func(path []enga.ABlock, pre any, child *enga.World, res *enga.Result) bool {
+					if res.Err != nil {
+						if strings.Contains(res.Err.Error(), "empty") {
+							r.Outcome("truncated-empty-set")
+							return false
+						}
+						r.Violate(mc.Violation{Class: "honest-block-fails:" + res.Stage, Msg: fmt.Sprintf("%v | %s history %v", res.Err, rt.Name, aPath(path)), Detail: engaDetail{Path: path, Note: rt.Name}}, nil)
+						return false
+					}
+					check(child, path)
+					return true
+				},
+			}
+			t.Only = only
+			t.Explore(root)
+			r.Sample(map[string]any{"root": rt.Name, "history": aPath([]enga.ABlock{menu[1], menu[len(menu)/3], menu[len(menu)-1]})})
 		}
-		r.Transitions.Add(1)
-		r.Outcome("round-trip")
+		treeRecheck(r, explore)
+		explore(r, nil)
 	}
-	check(root, nil)
-	t := &enga.Tree{Run: r, Depth: depth,
-		Menu: func(w *enga.World, path []enga.ABlock) []enga.ABlock { return menu },
-		Visit: func(path []enga.ABlock, pre any, child *enga.World, res *enga.Result) bool {
-			if res.Err != nil {
-				if strings.Contains(res.Err.Error(), "empty") {
-					r.Outcome("truncated-empty-set")
-					return false
-				}
-				r.Violate(mc.Violation{Class: "honest-block-fails:" + res.Stage, Msg: fmt.Sprintf("%v | history %v", res.Err, aPath(path)), Detail: engaDetail{Path: path}}, nil)
-				return false
-			}
-			check(child, path)
-			return true
-		},
+}
+
+// c18Roots are the genesis configurations the histories start from: the general one, and a
+// relayer group of four whose membership changes pile up between two elections.
+type c18Root struct {
+	Name string
+	Cfg  func() *sim.GenesisCfg
+	Menu []enga.ABlock
+}
+
+func c18Roots(thorough bool) []c18Root {
+	ev := func(es ...enga.Event) enga.ABlock { return enga.ABlock{Events: es} }
+	group := []enga.ABlock{
+		ev(enga.Event{Kind: "req:addvoter"}),
+		ev(enga.Event{Kind: "tx:newvoter"}),
+		ev(enga.Event{Kind: "req:removevoter"}),
+		ev(enga.Event{Kind: "req:removevoter", Var: "first"}),
+		ev(enga.Event{Kind: "req:removevoter", Var: "two"}),
+		{Dt: 7},
 	}
-	t.Explore(root)
-	r.Sample(map[string]any{"history": aPath([]enga.ABlock{menu[2], menu[7], menu[16]})})
+	return []c18Root{{Name: "general", Cfg: c18Cfg, Menu: c18Menu(thorough)}, {Name: "relayer-group-of-4", Cfg: c18GroupCfg, Menu: group}}
+}
+
+func c18RootCfg(name string) *sim.GenesisCfg {
+	if name == "relayer-group-of-4" {
+		return c18GroupCfg()
+	}
+	return c18Cfg()
+}
+
+func c18GroupCfg() *sim.GenesisCfg {
+	g := sim.DefaultCfg(2, 3)
+	b := c08Cfg()
+	g.Vals, g.LockingParams, g.RelayerParams = b.Vals, b.LockingParams, b.RelayerParams
+	return g
 }
 
 func replayC18(detail json.RawMessage) (bool, string) {
@@ -302,7 +346,7 @@ func replayC18(detail json.RawMessage) (bool, string) {
 	if err := json.Unmarshal(detail, &d); err != nil {
 		return false, err.Error()
 	}
-	w, err := enga.NewWorld(c18Cfg())
+	w, err := enga.NewWorld(c18RootCfg(d.Note))
 	if err != nil {
 		return false, err.Error()
 	}
